@@ -18,6 +18,6 @@ pub fn check_one(s: &str) -> Option<Witness> {
 
 pub fn search(_obl: &str) -> Vec<Witness> {
     let mut found = vec![];
-    crate::util::strings(ALPHA, 4, |s| { if let Some(w) = check_one(s) { found.push(w); } found.len() >= 8 });
+    crate::util::strings(ALPHA, if crate::util::deep() { 5 } else { 4 }, |s| { if let Some(w) = check_one(s) { found.push(w); } found.len() >= 8 });
     found
 }
